@@ -22,7 +22,7 @@ from .z3env import REPO_SRC, ensure_repo_first
 VERIF = os.path.dirname(os.path.dirname(os.path.abspath(__file__)))
 EVID = os.environ.get("UJVC_EVID") or os.path.join(VERIF, "evidence")
 CONTRACT_MODULES = [
-    "retry", "times", "filestore", "stores", "engine", "prepare", "coordinator", "queues", "runphys", "runpath", "queues", "kahn", "graphs", "rewrite", "stale",
+    "retry", "times", "filestore", "stores", "engine", "prepare", "coordinator", "queues", "runphys", "runpath", "rewrite", "stale", "queues", "kahn", "graphs", "rewrite", "stale",
     "plumbing", "runpath", "observers", "trace", "frames", "progress", "lemmas", "history",
 ]
 
@@ -142,6 +142,7 @@ def check_property(pid, tier="quick", seed=0, update_expected=False, jobs=None, 
         for o in r.obligations:
             if pid in o["props"]:
                 o["unit"] = r.name
+                o["bounded"] = U.UNITS[r.name].kind == "bounded"
                 obs.append(o)
     names = {o["name"] for o in obs}
     if update_expected:
@@ -210,8 +211,9 @@ def check_property(pid, tier="quick", seed=0, update_expected=False, jobs=None, 
         print(m)
     for line in vio_lines:
         print(line)
-    n_dis = sum(1 for o in obs if o["verdict"] == "discharged")
-    print(f"property={pid} tier={tier} units={len(results)} obligations={len(obs)} discharged={n_dis} "
+    n_dis = sum(1 for o in obs if o["verdict"] == "discharged" and not o.get("bounded"))
+    n_b = sum(1 for o in obs if o.get("bounded"))
+    print(f"property={pid} tier={tier} units={len(results)} obligations={len(obs) - n_b} (+{n_b} bounded stand-in checks) discharged={n_dis} "
           f"refuted={len([o for o in obs if o['verdict']=='refuted'])} unknown={len(unknowns)} known_findings={len(known_hits)} "
           f"wall={wall:.1f}s exit={status}")
     return status
@@ -262,7 +264,18 @@ def write_evidence(pid, tier, seed, results, obs, violations, known_hits, unknow
         if len(samples) >= 8:
             break
     slowest = sorted(obs, key=lambda o: -o["time_s"])[:5]
+    bounded_obs = [o for o in obs if o.get("bounded")]
+    obs_all = obs
+    obs = [o for o in obs if not o.get("bounded")]
     n_dis = sum(1 for o in obs if o["verdict"] == "discharged")
+    bounded_units = []
+    for r in results:
+        u = U.UNITS[r.name]
+        if u.kind == "bounded":
+            mine = [o for o in bounded_obs if o.get("unit") == r.name]
+            bounded_units.append({"unit": r.name, "bound": u.doc.split("\n")[0][:300], "checks": len(mine),
+                                  "passed": sum(1 for o in mine if o["verdict"] == "discharged"), "paths": r.paths,
+                                  "note": "bounded stand-in: never counted in obligations/discharged"})
     cov = {
         "obligations": len(obs),
         "discharged": n_dis,
@@ -284,7 +297,7 @@ def write_evidence(pid, tier, seed, results, obs, violations, known_hits, unknow
         "slowest": [{"name": o["name"], "time_s": o["time_s"], "backend": o["backend"]} for o in slowest],
         "samples": samples,
         "unproved_clauses": meta.get("unproved_clauses", []),
-        "bounded_standins": meta.get("bounded", []),
+        "bounded_standins": bounded_units + meta.get("bounded", []),
         "known_findings_matched": [f["text"] for f, _ in known_hits],
         "undecided": [m for m in msgs],
         "refuted": [{"name": o["name"], "path": o["path"]} for o in violations],
